@@ -1,5 +1,7 @@
 package hx
 
+import "fmt"
+
 // Cfg is the small index configuration used by most histories: M=2 and
 // efConstruction=4, so that the parallel batch path (taken once the index holds
 // >= efConstruction nodes) and the "at most 2*M nodes" regime are reached by short histories.
@@ -98,6 +100,22 @@ func Bases() map[string][]Op {
 		{K: Compress, I: "i", S: "float16"},
 		{K: VAdd, I: "i", ID: "c", V: v(0.2, 0.3)},
 		{K: VSetMeta, I: "i", ID: "a", M: map[string]any{"n": 1.0}},
+	}
+	// compression of an index that lives in a snapshot, as the first write after a (re)start or
+	// right after an import commit: the log is empty / unchanged since the engine last measured it
+	b["restart-then-compress"] = []Op{mk("euclidean", "float32"),
+		{K: VAdd, I: "i", ID: "a", V: v(0.1, 1), M: map[string]any{"s": "x"}},
+		{K: VAdd, I: "i", ID: "b", V: v(1, 0)},
+		{K: Snapshot},
+		{K: Restart},
+		{K: Compress, I: "i", S: "float16"},
+		{K: VAdd, I: "i", ID: "c", V: v(0.2, 0.3)},
+	}
+	b["import-commit-compress"] = []Op{mk("euclidean", "float32"),
+		{K: VImport, I: "i", Items: []Item{{ID: "a", V: v(1, 0), M: map[string]any{"s": "x"}}, {ID: "b", V: v(0, 1)}}},
+		{K: VImportCommit, I: "i"},
+		{K: Compress, I: "i", S: "float16"},
+		{K: VAdd, I: "i", ID: "c", V: v(1, 1)},
 	}
 	b["compress-int8"] = []Op{mk("cosine", "float32"),
 		{K: VAdd, I: "i", ID: "a", V: v(1, 0), M: map[string]any{"s": "x"}},
@@ -246,4 +264,25 @@ func SortedNames(m map[string][]Op) []string {
 		}
 	}
 	return out
+}
+
+// BigBases are histories that reach the code paths which only exist above a size threshold (the
+// parallel batch insertion of the HNSW index is used once the graph holds >= 40 nodes for an
+// import and >= efConstruction nodes for a batch): a first bulk import fills the index, a second
+// one and a batch then take the parallel path, with vectors that are not unit length.
+func BigBases() map[string][]Op {
+	b := map[string][]Op{}
+	for _, metric := range []string{"cosine", "euclidean"} {
+		var first []Item
+		for i := 0; i < 44; i++ {
+			first = append(first, Item{ID: fmt.Sprintf("f%02d", i), V: []float32{float32(i%7) + 1, float32(i%5) - 2}})
+		}
+		b["big-import-"+metric] = []Op{{K: VCreate, I: "i", Cfg: &IdxCfg{Metric: metric, Prec: "float32", M: 4, EfC: 8}},
+			{K: VImport, I: "i", Items: first},
+			{K: VImport, I: "i", Items: []Item{{ID: "p", V: []float32{3, 4}, M: map[string]any{"s": "x"}}, {ID: "q", V: []float32{0, 7}}, {ID: "r", V: []float32{-2, 0.5}}}},
+			{K: VImportCommit, I: "i"},
+			{K: VAddBatch, I: "i", Items: []Item{{ID: "s", V: []float32{6, 8}}, {ID: "t", V: []float32{0.5, 0}}}},
+		}
+	}
+	return b
 }
